@@ -9,4 +9,7 @@ func propC18(c *Ctx, r *Report) {
 		"size/offset arithmetic of the container, abbreviation widths, operand indices, signature/PSV consistency, hash correctness")
 	c.runBalance(r, "pairing.bitcode", bitcodeBracket)
 	r.floor("pairing.EnterBlock/ExitBlock", 8)
+	r.Clauses = append(r.Clauses, "determinism (E6): every `range` over a Go map in the DXIL packages is order-insensitive or argued")
+	c.runMapOrder(r, "maporder", "dxil.mapranges", inPkgs("dxil"), mapOrderExceptions)
+	r.floor("dxil.mapranges", 20)
 }
